@@ -25,6 +25,7 @@ BUDGET = {
     "quick": {"examples": 160, "shards": 16, "case_timeout": 120, "wall_budget": 300},
     "thorough": {"examples": 6400, "shards": 16, "case_timeout": 600, "wall_budget": 2400},
 }
+FUZZ = {"quick": dict(runs=600, procs=2, wall_s=90), "thorough": dict(runs=40000, procs=16, wall_s=900)}
 TOLERANCES = {"recursion_headroom_frames": 250, "node_budget_per_call": 200000}
 HEADROOM = 250
 NODE_BUDGET = 200000
